@@ -272,7 +272,8 @@ func (p *Forkable) blocksFromCursor(cursor *bstream.Cursor) ([]*bstream.Preproce
 			// send irreversible notifications up to forkdb LIB
 			if seg[i].BlockNum <= p.forkDB.LIBNum() {
 				stepType := bstream.StepIrreversible
-				if seg[i].BlockNum > cursor.Block.Num() {
+				if seg[i].BlockNum > cursor.Block.Num() ||
+					cursor.Step.Matches(bstream.StepUndo) && seg[i].BlockNum == cursor.Block.Num() {
 					stepType = bstream.StepNewIrreversible
 				}
 				out = append(out, wrapBlockForkableObject(seg[i].Object.(*ForkableBlock), stepType, head, seg[i].AsRef(), nil))
